@@ -152,7 +152,8 @@ CHECKS = {
         "every typed filter meets the side conditions. Executed on every run: typed filters rendered to TEXT by the reference printer -> real parser -> real SQLite dialect -> "
         "sqlite3 on a 432-row product table and random tables; ids compared row by row with Spec.evalB (700 000 (filter,row) pairs) and with Spec.SqliteSem on the re-read text. "
         "Numeric stream (outside the theorem's grammar): floor / ceiling / round of a fractional column compared with integers, judged against Spec/NumFn.lean (roundQ, with floor_spec / "
-        "ceiling_spec / round_near / round_midpoint proved). Tie.SqlTemplates.selectTpl_in_source: every function template of the model is an f-string of the source class it models.",
+        "ceiling_spec / round_near / round_midpoint proved; kf_trunc_shift_wrong characterises the known finding). Date stream: comparisons / in-lists / year ... second over a date and a "
+        "date-time column judged against Spec/DateSem.lean; Props/DateOrder.lean proves that ordinal comparison of ISO spellings is the chronological order (iso_order, cmp_iso). Tie.SqlTemplates.selectTpl_in_source: every function template of the model is an f-string of the source class it models.",
    note="Trusted: Lean kernel, standard axioms, Spec/ODataSem.lean (reference semantics, profile decisions of DESIGN §4), Spec/SqliteSem.lean (environment model of SQLite, validated against sqlite3 "
         "each run), Spec/SqlLex+SqlParse, harness. semOkB excludes negative substring positions (unspecified), NUL, wrong storage classes, and the two LIKE known findings (ASCII case folding; "
         "wildcards in a computed pattern) which have Lean witnesses. Dates and 64-bit overflow are outside the semantic model (their translation is covered structurally by C09); fractional values only through the numeric stream (judged, not proved). "
@@ -164,7 +165,7 @@ CHECKS = {
         "and every row inside semOkDj the compiled SQL selects the row iff OData's semantics makes the filter true), dj_never_leaks, dj_translates (Props/C02.lean when present). "
         "Executed on every run: typed filters as TEXT through apply_odata_query (QuerySet and Manager) on in-memory SQLite, ids compared row by row with Spec.evalB and with the "
         "environment model (150 000+ (filter,row) pairs), visitor outcome classes compared with the model, case-twin sequences; numeric stream (floor / ceiling / round of a fractional "
-        "column, with and without NULL) judged against Spec/NumFn.lean.",
+        "column, with and without NULL) judged against Spec/NumFn.lean; date stream judged against Spec/DateSem.lean (Props/DateOrder.lean).",
    note="Trusted: Lean kernel, standard axioms, Spec/ODataSem, Spec/SqliteSem + Spec/OrmSql (environment models, validated each run), harness. Known findings (excluded by semOkDj, counted, Lean-characterised): "
         "LIKE case folding on SQLite, Concat's COALESCE, Django not parenthesising negated / '('-initial operands of = / <>. The Django tests are not collected by the pinned command; "
         "they were run by hand after every fix (98 passed). fix: 4813a75 3d0299d e93080a.",
@@ -174,7 +175,7 @@ CHECKS = {
         "orm_core_agree (ORM and Core build the same tree for every typed filter), keyword_case (TRUE / True / true), sa_never_leaks, sa_translates. Executed on every run: typed filters as "
         "TEXT through apply_odata_query(select(Model)), apply_odata_query(session.query(Model)) and apply_odata_core(select(table)) on in-memory SQLite: the three entry styles must agree, "
         "ids compared row by row with Spec.evalB and the environment model (170 000+ pairs), upper-case Boolean keywords, case-twin sequences in one process; numeric stream (floor / ceiling / "
-        "round of a fractional column) judged against Spec/NumFn.lean (floor on a NULL cell is skipped: SQLAlchemy's pysqlite floor() fallback raises on NULL - environment).",
+        "round of a fractional column) judged against Spec/NumFn.lean, date stream against Spec/DateSem.lean (floor on a NULL cell is skipped: SQLAlchemy's pysqlite floor() fallback raises on NULL - environment).",
    note="Trusted: as C02. Known findings: LIKE case folding, wildcards in a computed pattern, div is true division (pinned structurally by the suite); indexof / concat use functions SQLite lacks (outside the "
         "supported fragment on SQLite). fix: 7c0cf2f e81d1f7 235cac7 2c1d307.",
    design="§6 C03", technique="Lean 4 proof over visitor model + environment model + tie theorems + differential execution through the three real entry styles"),
